@@ -2094,11 +2094,20 @@ def _execute_func(func: PipeFunc, func_args: dict[str, Any], lazy: bool) -> Any:
         raise  # pragma: no cover
 
 
-def _names(nodes: Iterable[PipeFunc | str]) -> tuple[str, ...]:
+def _names(
+    nodes: Iterable[PipeFunc | str],
+    consumers: Iterable[PipeFunc] | None = None,
+) -> tuple[str, ...]:
     names: list[str] = []
     for n in nodes:
         if isinstance(n, PipeFunc):
-            names.extend(at_least_tuple(n.output_name))
+            outputs = at_least_tuple(n.output_name)
+            if consumers is not None:
+                # Only the outputs that one of the consumers actually takes as an argument
+                outputs = tuple(
+                    o for o in outputs if any(o in f.parameters and o not in f._bound for f in consumers)
+                )
+            names.extend(outputs)
         else:
             assert isinstance(n, str)
             names.append(n)
@@ -2135,7 +2144,7 @@ def _compute_arg_mapping(
         if n not in replaced and not isinstance(n, _Bound | _Resources)
     ]
     deps = _unique(args + preds)
-    deps_names = _names(deps)
+    deps_names = _names(deps, consumers=_filter_funcs([*replaced, node]))
     if deps_names in arg_set:
         return
     arg_set.add(deps_names)
